@@ -27,6 +27,7 @@ BISECT_LEFT = {"bisect.bisect_left", "bisect_left"}
 
 def run(ck, an, tier):
     partitions(ck, an)
+    latency_plumbing(ck, an)
     custom_events(ck, an)
     from sa.report import Renamed
     from rules import C15
@@ -282,6 +283,22 @@ def partitions(ck, an):
     for attr in ("_partition_latent", "_partition_nonlatent"):
         own_writers(ck, an, "S2.partitions-written-once", "Transmitter", attr, {"Transmitter._create_partitions", "Transmitter.__init__"}, min_sites=1)
     own_callers(ck, an, "S2.create-partitions-callers", "Transmitter._create_partitions", {"TradingEnv.__init__", "Transmitter._reset"})
+
+
+def latency_plumbing(ck, an):
+    """The latency the environment was configured with is the one the partitions are built with, unchanged (by value id)."""
+    fi = an.fa("TradingEnv.__init__")
+    calls = [c for c in fi.calls_named("_create_partitions")]
+    ck.floor("_create_partitions calls in TradingEnv.__init__", len(calls), 1)
+    for c in calls:
+        at = fi.node_of(c).id
+        got = fi.sym.canon(c.args[0], at) if c.args else (fi.sym.canon(c.keywords[0].value, at) if c.keywords else "<default>")
+        ck.check(got == "latency", "ARGFLOW", "S5.configured-latency-reaches-partitions", fi.f.short, fi.loc(c), "the partitions are built with the configured latency, as given",
+                 f"_create_partitions receives {got[:120]}, not the `latency` argument as given (converted / re-scaled / defaulted on the way)", construct=stmt_text(c))
+    for s_ in assigns_to_attr(fi, "_latency"):
+        if isinstance(s_, ast.Assign):
+            got = fi.sym.canon(s_.value, fi.node_of(s_).id)
+            ck.check(got == "latency", "ARGFLOW", "S5.configured-latency-stored", fi.f.short, fi.loc(s_), "the environment stores the configured latency as given", f"self._latency = {got[:120]}", construct=stmt_text(s_))
 
 
 def custom_events(ck, an):
